@@ -10,11 +10,13 @@
      verdict_invariant_types     bijective renaming of type names and labels
    (the closed instance is not available: EqualType's memo is keyed by PRINTED types, so its answer
    is invariant only for renamings under which printing stays injective — C15's matter.)
-   NOT PROVED (kept as the Definition verdict_invariant_type_order_statement): permutation of the TYPE
-   definitions; missing: order-independence of the tlookup-based functions of package `types`. *)
+     verdict_invariant_type_order   permutation of the TYPE definitions (relative to teq_decided and
+                                    teq_env_invariant: teq depends on the environment through lookups only)
+   NOT PROVED: the closed forms of the last two (Definitions *_closed_statement below); they need C08
+   (EqualType = bisimilarity on well-formed types) and, for renaming, C15 (printing stays injective). *)
 Require Import Grits.Base Grits.ModeDefs Grits.Modes Grits.STypes Grits.Forms Grits.Subst Grits.Infer
                Grits.TcDeps Grits.Expand Grits.Tc Grits.TcTop Grits.spec.Typing Grits.proofs.TcLemmas
-               Grits.proofs.TypingVerdict Grits.proofs.Equivariance Grits.proofs.DeclPerm Grits.proofs.EquivarianceTypes.
+               Grits.proofs.TypingVerdict Grits.proofs.Equivariance Grits.proofs.DeclPerm Grits.proofs.EquivarianceTypes Grits.proofs.TypePerm.
 Require Import Coq.Sorting.Permutation.
 
 Theorem verdict_invariant_partial r r' rf rf' p : bijection r r' -> bijection rf rf' ->
@@ -41,8 +43,23 @@ Proof.
   intros Hd Ht Hl E1 E2. rewrite !(tc_verdict teq Hd). now apply (typing_equivariant_types teq rt rt' rl rl').
 Qed.
 
-(* ---------------------------------------------------------------- the part not proved *)
-(* the full statement of the verdict half of C14 adds this one (not proved here): *)
-Definition verdict_invariant_type_order_statement : Prop :=
-  forall p D', Permutation (p_types p) D' ->
-    (accepts p <-> accepts {| p_procs := p_procs p; p_assumed := p_assumed p; p_funs := p_funs p; p_types := D' |}).
+(* ---------------------------------------------------------------- order of the type definitions *)
+Definition with_types (p : program) (D' : tenv) : program :=
+  {| p_procs := p_procs p; p_assumed := p_assumed p; p_funs := p_funs p; p_types := D' |}.
+
+Theorem verdict_invariant_type_order teq p D' :
+  teq_decided teq -> teq_env_invariant teq -> Permutation (p_types p) D' ->
+  (accepts p <-> accepts (with_types p D')).
+Proof.
+  intros Hd Hi P. rewrite !(tc_verdict teq Hd). split.
+  - now apply typing_type_perm.
+  - intros OK. apply Permutation_sym in P.
+    pose proof (typing_type_perm teq Hi (with_types p D') (p_types p) P OK) as OK'.
+    destruct p. exact OK'.
+Qed.
+
+(* ---------------------------------------------------------------- closed forms, not proved here *)
+Definition verdict_invariant_types_closed_statement : Prop :=
+  forall rt rt' rl rl' p, bijection_t rt rt' -> bijection_t rl rl' -> (accepts p <-> accepts (rent_program rt rl p)).
+Definition verdict_invariant_type_order_closed_statement : Prop :=
+  forall p D', Permutation (p_types p) D' -> (accepts p <-> accepts (with_types p D')).
